@@ -482,11 +482,11 @@ static void canon_of(const Model& m, const World& w, uint64_t& h1, uint64_t& h2,
         d[i] = str(o.kind) + "{"; sh[i] = d[i];
         for (size_t k = 0; k < o.addr.size(); ++k) {
             bool unspec = k < m.s[i].ch.size() && !m.s[i].ch[k].stamp;
-            d[i] += str(o.cls[k]) + (unspec ? "?" : "") + ":" + hex(o.lb[k]) + ";";
+            d[i] += str(o.cls[k]) + (unspec ? "?" : "") + ":" + str(o.lb[k].size()) + "." + str(fnv(o.lb[k].data(), o.lb[k].size())) + ";";
             sh[i] += str(o.cls[k]) + (unspec ? "?," : ",");
             if (o.cls[k] >= 0 && !strncmp(CL[o.cls[k]].name, "PDUCacher", 9)) d[i] += "c" + str(o.addr[k]->header_size()) + ";";
         }
-        d[i] += "}" + hex(o.rb);
+        d[i] += "}" + str(o.rb.size()) + "." + str(fnv(o.rb.data(), o.rb.size()));
         if (!o.addr.empty()) roots++;
         if (o.addr.size() >= 2) deep++;
         layers += (int)o.addr.size();
@@ -845,7 +845,8 @@ static void run_job(int job) {
         std::vector<int> classes; for (int i = 0; i < N_DEEP_CLASSES; ++i) classes.push_back(i);
         int depth = th ? 6 : 5;
         if (getenv("C12_DEPTH")) depth = atoi(getenv("C12_DEPTH"));
-        std::vector<Op> alpha = make_alphabet(classes, th);
+        bool d1 = th; if (getenv("C12_D1")) d1 = atoi(getenv("C12_D1")) != 0;
+        std::vector<Op> alpha = make_alphabet(classes, d1);
         int split = depth >= 5 ? 3 : 2;
         if (getenv("C12_SPLIT")) split = atoi(getenv("C12_SPLIT"));
         bool done = explore("mode=deep", std::vector<Op>(), alpha, depth, split, NJ, job, C, depth <= 5);
